@@ -16,7 +16,7 @@ pre_c = c09.pre_c + """
 size_t g_tid_off, g_tid_len, g_sid_off, g_sid_len, g_fl_off, g_fl_len; uint8_t g_flags_buf[1];
 #define VIEW_AT(base, off, len) ((string_view){(len), (base) + (off)})
 """
-post_struct_c = c09.post_struct_c
+post_struct_c = common.trace_boundary_c(["b3", "X-B3-TraceId", "X-B3-SpanId", "X-B3-Sampled", "uber-trace-id"]) + "\nSpanContext g_extracted;\n"
 
 RET = "__CPROVER_return_value"
 H = lambda i: "g_get_ret[%d]" % i
@@ -25,11 +25,12 @@ GHOST_FIELDS = ("g_tid_off = POFF(trace_id_hex.data_); g_tid_len = trace_id_hex.
 
 
 def get_req(n):
+    n = 5
     return "".join("__CPROVER_requires(%s.length_ <= XC_MAXLEN && __CPROVER_is_fresh(%s.data_, %s.length_))\n" % (H(i), H(i), H(i))
                    for i in range(n)) + "__CPROVER_requires(g_get_calls == 0)\n"
 
 
-EXTRACT_ASSIGNS = ("g_get_calls, __CPROVER_object_whole(g_get_key), __CPROVER_object_whole(g_get_key_len), "
+EXTRACT_ASSIGNS = ("g_get_calls, __CPROVER_object_whole(g_get_seen), "
                    "g_tid_off, g_tid_len, g_sid_off, g_sid_len, g_fl_off, g_fl_len")
 
 
@@ -54,12 +55,6 @@ V = "SC_VALID(%s)" % RET
 
 def b3_extract_post(valid, sc):
     return (
-        # which headers are read
-        "__CPROVER_ensures(g_get_calls >= 1 && " + common.key_lit_eq("g_get_key", "0", "b3") + ")\n"
-        "__CPROVER_ensures(!%s ==> (g_get_calls == 4 && " % B3_SINGLE + common.key_lit_eq("g_get_key", "1", "X-B3-TraceId") + " && " +
-        common.key_lit_eq("g_get_key", "2", "X-B3-SpanId") + " && " + common.key_lit_eq("g_get_key", "3", "X-B3-Sampled") + "))\n"
-        # a non-empty b3 header takes precedence: the multi headers are not even read
-        "__CPROVER_ensures(%s ==> g_get_calls == 1)\n" % B3_SINGLE +
         # field layout
         ("__CPROVER_ensures((%(v)s && %(S)s) ==> (g_tid_off == 0 && g_tid_len < %(h0)s.length_ && %(h0)s.data_[g_tid_len] == '-' && g_sid_off == g_tid_len + 1 && "
          "g_sid_off <= %(h0)s.length_ && g_sid_len <= %(h0)s.length_ - g_sid_off))\n"
@@ -73,18 +68,17 @@ def b3_extract_post(valid, sc):
         decode_claims(valid, B3_TB, B3_SB, sc))
 
 
-JG_B = "%s.data_" % H(0)
+JG_B = "%s.data_" % H(4)
 
 
 def jaeger_extract_post(valid, sc):
     return (
-        "__CPROVER_ensures(g_get_calls == 1 && " + common.key_lit_eq("g_get_key", "0", "uber-trace-id") + ")\n" +
         ("__CPROVER_ensures(%(v)s ==> (g_tid_off == 0 && g_tid_len < %(h0)s.length_ && %(b)s[g_tid_len] == ':' && g_sid_off == g_tid_len + 1 && "
          "g_sid_off <= %(h0)s.length_ && g_sid_len < %(h0)s.length_ - g_sid_off && %(b)s[g_sid_off + g_sid_len] == ':' && "
          "g_fl_off <= %(h0)s.length_ && g_fl_len <= %(h0)s.length_ - g_fl_off && g_fl_off >= g_sid_off + g_sid_len + 2 && %(b)s[g_fl_off - 1] == ':' && "
          "(g_fl_off + g_fl_len == %(h0)s.length_ || %(b)s[g_fl_off + g_fl_len] == ':') && g_fl_len <= 2))\n"
          "__CPROVER_ensures((%(v)s && g_j == 0) ==> (HB_EXPECT_AT(VIEW_AT(%(b)s, g_fl_off, g_fl_len), 1, g_flags_buf, 0) && %(sc)s.trace_flags_.rep_ == (g_flags_buf[0] & 1)))\n"
-         % dict(v=valid, h0=H(0), b=JG_B, sc=sc)) +
+         % dict(v=valid, h0=H(4), b=JG_B, sc=sc)) +
         decode_claims(valid, JG_B, JG_B, sc))
 
 
@@ -234,7 +228,7 @@ void h_RoundTrip_Jaeger(void)
   char O[54];
   xc_assume_digits(O, in.trace_id_.rep_, 32); xc_assume_digits(O + 33, in.span_id_.rep_, 16);
   __CPROVER_assume(O[32] == ':' && O[49] == ':' && O[50] == '0' && O[51] == ':' && O[52] == '0' && O[53] == ((in.trace_flags_.rep_ & 1) ? '1' : '0'));
-  g_get_ret[0].data_ = O; g_get_ret[0].length_ = 54;
+  g_get_ret[4].data_ = O; g_get_ret[4].length_ = 54;
   xc_carrier carrier;
   SpanContext out = JaegerPropagator_ExtractImpl(&carrier);
   RT_CHECK(out, in)
